@@ -12,7 +12,8 @@ def build(seed):
     if rnd.random() < 0.3:
         checks[0]["spell"] = rnd.choice(["slash", "relative", "cwd", "dot"])
     late = None
-    dirs_now = sorted(d for d in fs.dirs if d and d not in truth["removed"])
+    # (folder names that contain characters with a special meaning in a pattern are not used AS patterns)
+    dirs_now = sorted(d for d in fs.dirs if d and d not in truth["removed"] and not any(ch in d.split("/")[-1] for ch in "\\[]*?!#"))
     if dirs_now and rnd.random() < 0.3:
         # a directory pattern `name/` given only now: it hides what is INSIDE directories of that name, not the
         # directories themselves
@@ -30,7 +31,8 @@ def build(seed):
     if late is None:
         # the same questions asked at the root of every nested history (its own generations carry the patterns of the
         # parent runs that wrote into it)
-        nested = sorted({o["at"] for o in seal_ops if o["op"] == "create" and o.get("at") and not mutate.hidden(o["at"], pats)})
+        gone = lambda d: any(d == r or d.startswith(r + "/") for r in truth["removed"])
+        nested = sorted({o["at"] for o in seal_ops if o["op"] == "create" and o.get("at") and not mutate.hidden(o["at"], pats) and not gone(o["at"])})
         extra = []
         for d in nested:
             extra += [{"op": "verify", "at": d}, {"op": "diff", "at": d}]
